@@ -28,6 +28,20 @@ def run(c):
     r7(c)
     from rules import c07
     c07.r6(c, rid="C06.R8")
+    r9(c)
+
+
+def r9(c):
+    """the reverse form of an ACL rule (what selects `no X` / `undo X` lines for a rule `X`) — the clause C07.R2 states for the three sibling sites, here for the ACL compiler"""
+    from rules import c07
+    repo = c.repo
+    c.rule("C06.R9", "rbparser.acl._make_reverse: a rule counts as already negated only when it starts with the vendor's negation WORD (prefix + blank), the negated form is turned "
+                     "back by removing exactly that, and the plain form gets prefix + blank prepended — otherwise a covered line whose first word merely begins with the prefix "
+                     "(`notify ...` under `no`) gets a reverse pattern that selects nothing it should")
+    am = repo.module(ACL)
+    f2 = repo.func(ACL, "_make_reverse")
+    c.count("functions")
+    c07.reverse_site(c, am, f2, f2, f2.args.args[1].arg, f2.args.args[0].arg, "acl._make_reverse", rid="C06.R9")
 
 
 def r1(c, A):
